@@ -182,6 +182,7 @@ func (w *c17World) afterBroadcast() string {
 			case <-x.done:
 				x.state = 'd'
 			case <-deadline:
+				w.timeout()
 				return " unwoken=" + strconv.Itoa(x.n)
 			}
 		}
@@ -189,6 +190,7 @@ func (w *c17World) afterBroadcast() string {
 	}
 	for range asleep {
 		if !w.waitEvent("checked", 400*time.Millisecond) {
+			w.timeout()
 			return " unwoken"
 		}
 	}
@@ -219,7 +221,7 @@ func (w *c17World) cleanup() {
 	case <-fin:
 	case <-time.After(time.Second):
 	}
-	deadline := time.Now().Add(time.Second)
+	deadline := time.Now().Add(400 * time.Millisecond)
 	for {
 		for vigil.VerifCount(w.v) > 0 {
 			w.v.CeaseVigil()
@@ -234,7 +236,11 @@ func (w *c17World) cleanup() {
 				alive = true
 			}
 		}
-		if !alive || time.Now().After(deadline) {
+		if !alive {
+			return
+		}
+		if time.Now().After(deadline) {
+			w.timeout() // waiters that cannot be woken at all: abandoned (parked goroutines cost nothing)
 			return
 		}
 		time.Sleep(200 * time.Microsecond)
@@ -260,24 +266,40 @@ func genC17(rng *rand.Rand, tier string, w *bufio.Writer) {
 		fmt.Fprintf(w, "case %d\n", c)
 		n := 4 + rng.Intn(maxLen)
 		waiters, open, held := 0, 0, 0
+		stopped, ceasesWhileStopped := 0, 0 // the waiter (if any) stopped after its check
 		for i := 0; i < n; i++ {
 			r := rng.Intn(100)
+			if stopped > 0 && rng.Intn(3) == 0 {
+				fmt.Fprintf(w, "wgo %d\n", stopped)
+				stopped = 0
+				continue
+			}
 			switch {
 			case r < 22 || (open == 0 && held == 0 && waiters == 0):
 				fmt.Fprintln(w, "begin")
 				open++
-			case r < 42 && open > 0:
+			case r < 42 && open > 0 && (stopped == 0 || ceasesWhileStopped < 2):
 				fmt.Fprintln(w, "cease")
 				open--
 				held++
+				if stopped > 0 {
+					ceasesWhileStopped++
+				}
 			case r < 60 && held > 0:
 				fmt.Fprintln(w, "bcast")
 				held--
-			case r < 76:
+			case r < 76 && stopped == 0:
 				fmt.Fprintln(w, "wait")
 				waiters++
+				if open > 0 {
+					stopped, ceasesWhileStopped = waiters, 0
+				}
 			case r < 88 && waiters > 0:
-				fmt.Fprintf(w, "wgo %d\n", 1+rng.Intn(waiters))
+				k := 1 + rng.Intn(waiters)
+				fmt.Fprintf(w, "wgo %d\n", k)
+				if k == stopped {
+					stopped = 0
+				}
 			case waiters > 0:
 				fmt.Fprintf(w, "expect %d\n", 1+rng.Intn(waiters))
 			default:
@@ -356,7 +378,7 @@ func runC17(in *bufio.Scanner, out *bufio.Writer) {
 			go func(v vigil.Vigil, cw *c17World) { defer cw.ceaseWG.Done(); v.CeaseVigil(); cw.ceaseFin.Add(1) }(w.v, w)
 			d := 3 * time.Second
 			if w.lockHeld() {
-				d = 120 * time.Millisecond // with the mutex around the decrement it cannot get there now
+				d = 60 * time.Millisecond // with the mutex around the decrement it cannot get there now
 			}
 			res := "held"
 			if w.waitEvent("dec", d) {
